@@ -848,3 +848,37 @@ def r17_array_ghost_copied_as_array(ctx):
 
 
 RULES += [r17_array_ghost_copied_as_array]
+
+
+def r18_copy_keeps_destination_references(ctx):
+    ctx.rule("C15.r18", "region_copy / region_cast: the reference counter recorded for the destination takes the references the destination "
+             "ALREADY has into account (it is read from m_rgn_env.at(dst) and joined) - copying the source's counter makes two earlier "
+             "references of the destination look like one and both later stores through them strong updates", floor=2)
+    n = 0
+    for opname, dst_idx in (("region_copy", 0), ("region_cast", 1)):
+        for fn in _fns(ctx, opname)[:1]:
+            body = fn["body"]
+            n += 1
+            dst = lambda e: any(is_param(y, fn, dst_idx) for y in walk(e) if isinstance(y, dict) and y.get("k") == "ref")
+            reads = [c for c in walk(body, into_lambdas=True) if is_call(c, name="refcount_val") and
+                     any(is_call(y, name="at") and is_field(strip(y.get("o")), "m_rgn_env") and y.get("a") and dst(y["a"][0]) for y in walk(c.get("o")))]
+            # also through a local that was initialised from m_rgn_env.at(dst)
+            decls = {d.get("id"): d for d in walk(body, into_lambdas=True) if isinstance(d, dict) and d.get("k") == "decl" and "i" in d}
+            for c in walk(body, into_lambdas=True):
+                if is_call(c, name="refcount_val") and isinstance(strip(c.get("o")), dict) and strip(c["o"]).get("k") == "ref":
+                    d = decls.get(strip(c["o"]).get("id"))
+                    if d is not None and any(is_call(y, name="at") and is_field(strip(y.get("o")), "m_rgn_env") and y.get("a") and dst(y["a"][0]) for y in walk(d["i"])):
+                        reads.append(c)
+            joins = [c for c in walk(body, into_lambdas=True) if c.get("k") == "call" and c.get("op") in ("|", "|=") and
+                     any(is_call(y, name="refcount_val") for y in walk(c))]
+            if reads and joins:
+                ctx.ok("%s reads the destination's counter and joins it" % opname, fn, reads[0])
+            else:
+                ctx.bad("region_domain::%s records the SOURCE's reference counter for the destination without looking at the references the "
+                        "destination already has: a, b := make_ref(R2); c := make_ref(R1); R2 := copy(R1); *a := 1; *b := 2; x := *a gives "
+                        "x = 2" % opname, fn, body, sig="copy-overwrites-refcount:%s" % opname)
+    if n == 0:
+        ctx.fail("rule C15.r18: region_copy / region_cast not found")
+
+
+RULES += [r18_copy_keeps_destination_references]
